@@ -26,6 +26,7 @@ func TestMain(m *testing.M) { vlib.Main(m) }
 const (
 	custColoured = slog.Level(25)
 	custPlain    = slog.Level(26)
+	custFgOnly   = slog.Level(27) // registered with a foreground colour and no background
 	custRaw      = slog.Level(33)
 )
 
@@ -47,7 +48,13 @@ type histCall struct {
 	Msg    string
 	Attrs  []vlib.ExpAttr
 	Thru   bool
+	Panics int // 0: no; 1: one attribute value panics in its String method (the caller recovers); 2: the same inside a group
 }
+
+// panicky is a Stringer whose String method reads a field: it panics on a nil pointer.
+type panicky struct{ name string }
+
+func (p *panicky) String() string { return "user:" + p.name }
 
 func here() uintptr {
 	var pcs [1]uintptr
@@ -97,7 +104,7 @@ func genAttrs(t *rapid.T) []vlib.ExpAttr {
 	return as
 }
 
-var allSevs = append(append([]slog.Level{}, vlib.Builtins...), custColoured, custPlain, custRaw)
+var allSevs = append(append([]slog.Level{}, vlib.Builtins...), custColoured, custPlain, custFgOnly, custFgOnly, custRaw)
 
 func genHistory(t *rapid.T, label string, nLoggers int) []histCall {
 	n := rapid.IntRange(0, 40).Draw(t, label+"len")
@@ -111,6 +118,9 @@ func genHistory(t *rapid.T, label string, nLoggers int) []histCall {
 		}
 		if rapid.Bool().Draw(t, "hattrs") {
 			h[i].Attrs = genAttrs(t)
+		}
+		if rapid.IntRange(0, 11).Draw(t, "hpanics") == 0 {
+			h[i].Panics = rapid.IntRange(1, 2).Draw(t, "hpanicsWhere")
 		}
 	}
 	return h
@@ -129,6 +139,7 @@ func property(t *rapid.T, mode string, sink func([]byte)) {
 		defer vlib.Canon()()
 		_ = slog.RegisterLevel(custColoured, "notice", slog.RegWithColor(color.FgWhite, color.BgUnderline), slog.RegWithTreatedAsLevel(slog.InfoLevel))
 		_ = slog.RegisterLevel(custPlain, "plainlvl")
+		_ = slog.RegisterLevel(custFgOnly, "fgonly", slog.RegWithColor(color.FgCyan))
 
 		var p probe
 		p.Format = rapid.SampledFrom([]string{"color", "color", "logfmt", "json"}).Draw(t, "format")
@@ -220,11 +231,21 @@ func property(t *rapid.T, mode string, sink func([]byte)) {
 		runHist := func(h []histCall, goroutines int) {
 			do := func(c histCall) {
 				l := hl[c.Logger]
+				attrs := vlib.AttrsOf(c.Attrs)
+				if c.Panics > 0 {
+					// a value that panics while it is formatted; the caller recovers, as a server does per request
+					defer func() { _ = recover() }()
+					bad := slog.NewAttr("pv", (*panicky)(nil))
+					if c.Panics == 2 {
+						bad = slog.NewGroupedAttr("pg", slog.NewAttr("ok", 1), bad)
+					}
+					attrs = append(attrs, bad)
+				}
 				if c.Thru {
-					l.(slog.LogSlogAware).WriteThru(context.Background(), c.Sev, time.Unix(1700000000, 5), fixedPC, c.Msg, vlib.AttrsOf(c.Attrs))
+					l.(slog.LogSlogAware).WriteThru(context.Background(), c.Sev, time.Unix(1700000000, 5), fixedPC, c.Msg, attrs)
 				} else {
-					args := make([]any, 0, len(c.Attrs))
-					for _, a := range vlib.AttrsOf(c.Attrs) {
+					args := make([]any, 0, len(attrs))
+					for _, a := range attrs {
 						args = append(args, a)
 					}
 					l.LogAttrs(context.Background(), c.Sev, c.Msg, args...)
@@ -311,10 +332,16 @@ func property(t *rapid.T, mode string, sink func([]byte)) {
 				if c.Sev != p.Sev && f == "color" {
 					nt["history-has-other-colour"] = true
 				}
+				if c.Panics > 0 {
+					nt["history-has-a-recovered-panic"] = true
+				}
 			}
 		}
 		if p.Sev == custPlain || p.Sev == custRaw {
 			nt["probe-level-without-colour"] = true
+		}
+		if p.Sev == custFgOnly {
+			nt["probe-level-with-foreground-colour-only"] = true
 		}
 		if g1 > 1 {
 			nt["concurrent-history"] = true
